@@ -47,6 +47,8 @@ def main():
             ok = p.returncode == 0 and not viol
         print(f"CANARY {prop}/{c['name']}: {'ok' if ok else 'UNEXPECTED'} (exit {p.returncode}, expect {c['expect']}); "
               + "; ".join(l.split()[1] for l in failed[:3]))
+        if os.environ.get("CANARY_VERBOSE"):
+            print(p.stdout[-6000:])
         if not ok:
             bad += 1
             print(p.stdout[-1500:])
